@@ -90,6 +90,7 @@ def x9(ctx, tab, sites, scc=()):
     r = RuleResult('X9', 'flags, paths, tables and depth counters are forwarded to the parameter of the same name')
     n = 0
     inlined = {}
+    rebinds = {}
     for caller, callee, call in sites:
         crate, fl, fn, names = tab[caller]
         # locals bound once to a literal stand for that literal
@@ -117,6 +118,24 @@ def x9(ctx, tab, sites, scc=()):
             r.inst(key, {'call': '%s -> %s' % (caller, callee), 'param': pn, 'argument': sx.render(arg)[:40], 'class': kind}
                    if n % 7 == 1 else None)
             if kind == 'same':
+                # the caller's own value: not if the name was re-bound to something else before the call
+                if caller not in rebinds:
+                    rb = {}
+                    for nn in fn['body']['stmts']:      # top-level statements only: a shadowing inside a nested block has its own scope
+                        if nn.get('k') == 'let' and 'pat' in nn and 'init' in nn:
+                            for idn in [x_ for x_ in sx.pat_idents(nn['pat']) if x_]:
+                                if idn in names and idn in TRACKED:
+                                    b_ = arg_base(nn['init'])
+                                    while isinstance(b_, dict) and b_.get('k') == 'mcall' and b_['m'] in ('as_ref', 'clone', 'to_owned', 'into', 'as_str', 'borrow', 'to_path_buf', 'as_path', 'iter') and not b_['args']:
+                                        b_ = arg_base(b_['recv'])
+                                    if not sx.is_path(b_, idn):
+                                        rb[idn] = nn
+                    rebinds[caller] = rb
+                rb_ = rebinds[caller].get(what)
+                if rb_ is not None and (rb_.get('l') or 0) <= (call.get('l') or 0):
+                    r.fail(key + ':rebound', '%s/%s:%s' % (crate, fl, rb_.get('l')),
+                           '%s re-binds its parameter `%s` (`%s`) before handing it to %s: the callee does not receive the value the caller was given' %
+                           (caller, what, sx.render(rb_)[:70], callee), {'caller': caller, 'callee': callee, 'param': pn})
                 continue
             if kind == 'alias':
                 continue
